@@ -537,10 +537,10 @@ class RunShape:
                         self.pop_kind[n.id] = "peek"
                         self.cur = self.cur or v.value.value.id
                         self.item = self.item or t.id
-            elif n.kind == "for" and attr_of(n.ast.iter, "callbacks") and isinstance(n.ast.target, ast.Name):
+            elif n.kind == "for" and isinstance(n.ast.target, ast.Name) and _iter_over_callbacks(n.ast.iter) is not None:
                 self.pops.append(n.id)
                 self.pop_kind[n.id] = "iter"
-                self.cur = self.cur or n.ast.iter.value.id
+                self.cur = self.cur or _iter_over_callbacks(n.ast.iter)
                 self.item = self.item or n.ast.target.id
         ctx.need(self.pops, "any consumption of <d>.callbacks in Deferred._runCallbacks")
         # unpack: `cb, a, kw = <item>[k]` (or directly from the pop call); k constant, a conditional
@@ -642,6 +642,13 @@ class RunShape:
             if v is not None:
                 return v
         return None
+
+
+def _iter_over_callbacks(it) -> Optional[str]:
+    """receiver name when a for-loop iterates `X.callbacks` (possibly through list()/tuple()/iter()/reversed())"""
+    while isinstance(it, ast.Call) and dotted(it.func) in ("list", "tuple", "iter", "reversed", "sorted") and it.args:
+        it = it.args[0]
+    return it.value.id if attr_of(it, "callbacks") else None
 
 
 def is_const_str(n, s: str) -> bool:
